@@ -253,6 +253,17 @@ static inline size_t vit_checked_index(size_t i, size_t n)
         for (; first.i != last.i; ++first.i)                                                  \
             first.v->d[first.i] = v0++;                                                       \
     }
+/* std::reverse(first, last) over a vector */
+#define REVERSE_DECL(IT)                                                                      \
+    static inline void IT##_reverse(IT first, IT last)                                        \
+    {                                                                                         \
+        while (first.i != last.i && first.i != --last.i) {                                    \
+            __typeof__(first.v->d[0]) t = first.v->d[first.i];                                \
+            first.v->d[first.i] = first.v->d[last.i];                                         \
+            first.v->d[last.i] = t;                                                           \
+            ++first.i;                                                                        \
+        }                                                                                     \
+    }
 /* std::copy(first, last, std::back_inserter(dst)) between vectors of the same element type */
 #define COPY_BACK_DECL(IT, DST)                                                               \
     static inline void IT##_copy_back_##DST(IT first, IT last, DST *dst)                      \
